@@ -321,9 +321,20 @@ func (p *Prog) Func(relPath, name string) *ssa.Function {
 	}
 	if i := strings.Index(name, "."); i >= 0 {
 		tn, mn := name[:i], name[i+1:]
-		if f, ok := sp.Members[mn].(*ssa.Function); ok && len(f.Params) > 0 {
-			if n := namedOf(f.Params[0].Type()); n != nil && n.Obj().Name() == tn && n.Obj().Pkg() == sp.Pkg {
-				return f
+		if f, ok := sp.Members[mn].(*ssa.Function); ok {
+			if len(f.Params) > 0 {
+				if n := namedOf(f.Params[0].Type()); n != nil && n.Obj().Name() == tn && n.Obj().Pkg() == sp.Pkg {
+					return f
+				}
+			}
+			// the receiver was an empty struct (it carried nothing) and was dropped altogether
+			if t, ok := sp.Members[tn].(*ssa.Type); ok {
+				if st, isStruct := t.Type().Underlying().(*types.Struct); isStruct && st.NumFields() == 0 {
+					loadInventory()
+					if !inventory[modPath+"/"+relPath+".."+mn] {
+						return f
+					}
+				}
 			}
 		}
 		return nil
